@@ -48,6 +48,12 @@ func (ir *IntrospectionResolver) resolveSchema(schema *ast.Schema, selectionSet 
 		switch f.Name {
 		case common.TypenameFieldName:
 			result[f.Alias] = "__Schema"
+		case "description":
+			if schema.Description != "" {
+				result[f.Alias] = schema.Description
+			} else {
+				result[f.Alias] = nil
+			}
 		case "types":
 			types := []map[string]interface{}{}
 			// walk the types by name so the order does not depend on map iteration
